@@ -111,12 +111,21 @@ impl HopPath {
     ///
     /// In path selection, every AS in an AS_SEQUENCE counts as 1, an entire
     /// AS_SET counts as 1, and confederation sets/sequences count as 0.
+    ///
+    /// An AS_SEQUENCE segment that was put in the HopPath as one
+    /// `Hop::Segment` (instead of as individual `Hop::Asn`s) counts for
+    /// every AS it contains.
     pub fn hop_count_path_selection(&self) -> usize {
         self.hops.iter().fold(0, |sum, hop|
             match hop {
                 Hop::Asn(..)
                 | Hop::Segment(Segment { stype: SegmentType::Set ,..}) => {
                     sum + 1
+                }
+                Hop::Segment(
+                    seg @ Segment { stype: SegmentType::Sequence, .. }
+                ) => {
+                    sum + seg.asns().count()
                 }
                 _ => sum
             })
@@ -129,6 +138,9 @@ impl HopPath {
     pub fn neighbor_path_selection(&self) -> Option<Asn> {
         match self.hops.first() {
             Some(Hop::Asn(a)) => Some(*a),
+            Some(Hop::Segment(
+                seg @ Segment { stype: SegmentType::Sequence, .. }
+            )) => seg.asns().next(),
             _ => None
         }
     }
